@@ -37,7 +37,7 @@ Arguments t2 {A B}. Arguments t3 {A B C}. Arguments t4 {A B C D}. Arguments t5 {
 """
 
 PREAMBLE_BOX = COMMON + """From Similari Require Import Proofs.BoxProofs.
-From SimilariGen Require Import Consts Scalar ScalarBox.
+From SimilariGen Require Import Consts Scalar ScalarBox ScalarKalmanBox.
 Definition BBq := Build_BoundingBox Qops.
 Definition UBq := Build_Universal2DBox Qops.
 Inductive UBZ := UBz (xc yc : QZ) (a : option QZ) (asp h c : QZ).
@@ -45,6 +45,7 @@ Definition bbz (b : BoundingBox Qops) : list QZ := [qz (BoundingBox_left Qops b)
 Definition ubz (u : Universal2DBox Qops) := UBz (qz (Universal2DBox_xc Qops u)) (qz (Universal2DBox_yc Qops u)) (oqz (Universal2DBox_angle Qops u)) (qz (Universal2DBox_aspect Qops u)) (qz (Universal2DBox_height Qops u)) (qz (Universal2DBox_confidence Qops u)).
 Definition obbz (o : option (BoundingBox Qops)) := match o with Some b => Some (bbz b) | None => None end.
 Definition cz (v : Coord Qops) : list QZ := [qz (Coord_x Qops v); qz (Coord_y Qops v)].
+Definition m_kst (u : Universal2DBox Qops) (mean : list Q) := t2 (map qz (kalman_initiate_mean Qops u)) (match kalman_state_to_ubox Qops mean with Some v => Some (ubz v) | None => None end).
 Definition m_eqb a b := t2 (bbox_eq Qops a b) (bbox_eq Qops b a).
 Definition m_equ a b := t2 (ubox_eq Qops a b) (ubox_eq Qops b a).
 Definition m_conv (a : BoundingBox Qops) := t2 (ubz (bbox_to_ubox Qops a)) (obbz (ubox_to_bbox Qops (bbox_to_ubox Qops a))).
@@ -152,6 +153,9 @@ def box_expr(c):
         return "m_poly %s %s %s" % (coq_ub(ubq(c["a"])), q_lit(cs[0]), q_lit(cs[1]))
     if k == "norm":
         return "qz (normalize_angle Qops %s %s)" % (q_lit(f32q(int(c["a"]))), q_lit(PI32))
+    if k == "kst":
+        mean = [f32q(int(x)) for x in c["mean"].split(",")]
+        return "m_kst %s [%s]" % (coq_ub(ubq(c["a"])), "; ".join(q_lit(x) for x in mean))
     return None
 
 
@@ -298,6 +302,20 @@ def corr_box(c, m):
         ri = f32q(int(c["radius"]))
         if not close(ri * ri, zq(r2_m), 8 * U32 * zq(r2_m)):
             return "radius^2: implementation %r, model %r" % (float(ri * ri), float(zq(r2_m)))
+        return None
+    if k == "kst":
+        _, mean_m, u_m = m
+        mean_i = [f32q(int(x)) for x in c["mean"].split(",")]
+        if [zq(x) for x in mean_m] != mean_i:
+            return "initiate mean: implementation %s, model %s" % ([float(x) for x in mean_i], [float(zq(x)) for x in mean_m])
+        if (c["u"] == "E") != (u_m is None):
+            return "Universal2DBox::try_from(state): implementation %s, model %s" % (c["u"], u_m)
+        if u_m is not None:
+            ui = ubq(c["u"])
+            um = u_m[1][1:]
+            umq = [zq(um[0]), zq(um[1]), ozq(um[2]), zq(um[3]), zq(um[4]), zq(um[5])]
+            if ui != umq:
+                return "Universal2DBox::try_from(state): implementation %s, model %s" % ([None if x is None else float(x) for x in ui], [None if x is None else float(x) for x in umq])
         return None
     if k == "norm":
         a = f32q(int(c["a"]))
@@ -510,6 +528,39 @@ def oracle(c):
                 out.append(("C19:polygon:radius", "vertex %d lies at distance %r from the centre, get_radius() is %r" % (i, dist, rad_i)))
                 break
         return out
+    if k == "kst":
+        ab = bits_list(c["a"])
+        a = ubq(c["a"])
+        nonzero = a[2] is not None and a[2] != 0
+        names = ("xc", "yc", "angle", "aspect", "height", "confidence")
+        if c["u"] == "E":
+            out.append(("C19:kalman:state-to-box", "a box stored in a Kalman state (initiate) cannot be read back: Universal2DBox::try_from(state) fails"))
+        else:
+            ub = bits_list(c["u"])
+            u = ubq(c["u"])
+            for i in (0, 1, 3, 4):
+                if ub[i] != ab[i]:
+                    out.append(("C19:kalman:state-to-box", "box -> Kalman state -> box changes %s from %r to %r" % (names[i], float(a[i]), float(u[i]))))
+            if nonzero and (u[2] is None or ub[2] != ab[2]):
+                out.append(("C19:kalman:state-to-box", "box -> Kalman state -> box changes the angle from %r to %s" % (float(a[2]), None if u[2] is None else float(u[2]))))
+            if not nonzero and u[2] is not None and u[2] != 0:
+                out.append(("C19:kalman:state-to-box", "box -> Kalman state -> box invents the angle %r" % float(u[2])))
+            if c["ua"] != "1" or c["au"] != "1":
+                out.append(("C19:kalman:state-to-box", "the box read back from the Kalman state is not == to the original (read-back == original: %s, original == read-back: %s)" % (c["ua"], c["au"])))
+        if nonzero and c["bb"] != "E":
+            out.append(("C19:kalman:state-to-ltwh", "BoundingBox::try_from(state) succeeds for a state that holds the non-zero angle %r (the angle is silently dropped)" % float(a[2])))
+        if not nonzero:
+            if c["bb"] == "E":
+                out.append(("C19:kalman:state-to-ltwh", "BoundingBox::try_from(state) fails for a state without an angle"))
+            else:
+                bb = bbq(c["bb"])
+                w = a[3] * a[4]
+                exp = [a[0] - w / 2, a[1] - a[4] / 2, w, a[4]]
+                tol = [16 * U32 * max(abs(a[0]), abs(w)), 16 * U32 * max(abs(a[1]), abs(a[4])), 16 * U32 * abs(w), 0]
+                for i in range(4):
+                    if not close(bb[i], exp[i], tol[i]):
+                        out.append(("C19:kalman:state-to-ltwh", "BoundingBox::try_from(state) field %s is %r, the box has %r" % (("left", "top", "width", "height")[i], float(bb[i]), float(exp[i]))))
+        return out
     if k == "norm":
         a, r = f32q(int(c["a"])), f32q(int(c["r"]))
         two_pi = 2 * math.pi
@@ -551,7 +602,7 @@ def input_part(c):
     k = c["kind"]
     keys = {"eqb": ("a", "b", "k"), "equ": ("a", "b", "k"), "conv": ("a",), "convu": ("a",), "poly": ("a",), "norm": ("a",),
             "inter": ("a", "b"), "far": ("a", "b"), "cost": ("d",), "gate": ("mode", "mc", "thr", "a", "b", "hist"),
-            "baked": ("lu", "mi", "ep", "db"), "vis": ("kind_", "t", "d")}[k]
+            "baked": ("lu", "mi", "ep", "db"), "vis": ("kind_", "t", "d"), "kst": ("a",)}[k]
     return k + " " + " ".join("%s=%s" % ("kind" if x == "kind_" else x, c[x]) for x in keys)
 
 
@@ -561,7 +612,7 @@ F32_ONE = 0x3F800000
 def shrink(c, key):
     """make the other fields of a failing case simple (1.0 / no angle) as long as the same oracle key still fires"""
     k = c["kind"]
-    if k not in ("eqb", "equ", "conv", "convu", "poly"):
+    if k not in ("eqb", "equ", "conv", "convu", "poly", "kst"):
         return c
     cur = c
     fields = ["a", "b"] if k in ("eqb", "equ") else ["a"]
@@ -569,6 +620,8 @@ def shrink(c, key):
     for i in range(nf):
         if k in ("eqb", "equ") and i == int(cur["k"]):
             continue
+        if k == "kst" and i == 2:
+            continue        # the angle is what the stream is about
         for repl in ("N", str(F32_ONE)) if (k in ("equ", "convu", "poly") and i == 2) else (str(F32_ONE),):
             cand = dict(cur)
             for f in fields:
@@ -715,7 +768,7 @@ def run(chk):
             eq_classes[cls] += 1
             if d != 0:
                 nontrivial.add(input_part(c))
-        elif c["kind"] in ("conv", "convu", "poly", "norm"):
+        elif c["kind"] in ("conv", "convu", "poly", "norm", "kst"):
             nontrivial.add(input_part(c))
     chk.coverage.update({
         "evaluations": len(cases),
